@@ -1,26 +1,56 @@
 (* Correspondence for C06: the implementation's a < b and a = b vs the model. *)
 From Arrai Require Import Base.Val Spec.SetAlg Eval.Interp Rep.Less Gen.Kinds Proofs.LessP Check.EvalCheck.
 
-Record case06 := { o_id : Z; o_a : expr; o_b : expr; o_lt : bool; o_eq : bool }.
+(* a pair of pool values by position, with what the implementation answered *)
+Record case06 := { o_id : Z; o_a : nat; o_b : nat; o_lt : bool; o_eq : bool }.
 
-(* 0 agree or not modelled; 1 `<` differs from the model; 2 `=` differs from the specification *)
-Definition classify06 (k : case06) : Z :=
-  match run_data FUEL (o_a k), run_data FUEL (o_b k) with
-  | Ok va, Ok vb =>
+Definition FUEL06 : nat := 60.
+
+(* every pool value is evaluated once by the reference interpreter *)
+Definition pool_vals (es : list expr) : list (option val) :=
+  map (fun e => match run_data FUEL e with Ok v => Some v | _ => None end) es.
+
+(* 0 agree (or a value the specification does not evaluate); 1 `<` differs from the model;
+   2 `=` differs from the specification; 3 the model predicts a panic where the implementation
+   answered; 4 the model ran out of fuel *)
+Definition classify06 (vs : list (option val)) (k : case06) : Z :=
+  match nth (o_a k) vs None, nth (o_b k) vs None with
+  | Some va, Some vb =>
       if negb (Bool.eqb (veqb va vb) (o_eq k)) then 2
-      else match rless (knum_of kind_table) 40 va vb with
-           | Some r => if Bool.eqb r (o_lt k) then 0 else 1
-           | None => 0
+      else match rless (knum_of kind_table) FUEL06 va vb with
+           | ROk r => if Bool.eqb r (o_lt k) then 0 else 1
+           | RPanic => 3
+           | RFuel => 4
            end
   | _, _ => 0
   end.
 
-Definition modelled06 (k : case06) : bool :=
-  match run_data FUEL (o_a k), run_data FUEL (o_b k) with
-  | Ok va, Ok vb => match rless (knum_of kind_table) 40 va vb with Some _ => true | None => false end
+Definition modelled06 (vs : list (option val)) (k : case06) : bool :=
+  match nth (o_a k) vs None, nth (o_b k) vs None with
+  | Some va, Some vb => match rless (knum_of kind_table) FUEL06 va vb with ROk _ => true | _ => false end
   | _, _ => false
   end.
 
-Definition report06 (l : list case06) : list (Z * Z) :=
-  filter (fun p => negb (Z.eqb (snd p) 0)) (map (fun k => (o_id k, classify06 k)) l).
-Definition modelled_count (l : list case06) : Z := Z.of_nat (length (filter modelled06 l)).
+(* the disagreements, preceded by (-1, number of pairs the model decided) *)
+Definition report06 (es : list expr) (l : list case06) : list (Z * Z) :=
+  let vs := pool_vals es in
+  (-1, Z.of_nat (length (filter (modelled06 vs) l)))
+  :: filter (fun p => negb (Z.eqb (snd p) 0)) (map (fun k => (o_id k, classify06 vs k)) l).
+
+(* the representation the model predicts for a value (compared with the Go type
+   name and the Kind() number of the implementation's value), and whether the
+   value lies in the domain of the order theorem *)
+Definition kind_code (k : rkind) : Z :=
+  match k with
+  | KNum => 0 | KEmpty => 1 | KTrue => 2 | KGeneric => 3 | KStr => 4 | KBytes => 5 | KArr => 6 | KDict => 7
+  | KUnion => 8 | KRel => 9 | KTupG => 10 | KTupChar => 11 | KTupItem => 12 | KTupEntry => 13 | KTupByte => 14
+  | KNeg _ => 15
+  end.
+(* (id, 1000000 * in-domain + 1000 * kind code + |Kind() number|); -1 when the expression has no value *)
+Definition value_kinds (l : list (Z * expr)) : list (Z * Z) :=
+  map (fun p => (fst p,
+                 match run_data FUEL (snd p) with
+                 | Ok v => (if go_ok v then 1000000 else 0) + 1000 * kind_code (kind_of v)
+                           + Z.abs (knum_of kind_table (kind_of v))
+                 | _ => -1
+                 end)) l.
